@@ -43,9 +43,13 @@ func guard(f func() error) (err error) {
 	return f()
 }
 
+// credentials of the input the operations currently run on (crypto matrix: encrypted inputs)
+var curUPW, curOPW string
+
 func newConf() *model.Configuration {
 	c := model.NewDefaultConfiguration()
 	c.ValidationMode = model.ValidationRelaxed
+	c.UserPW, c.OwnerPW = curUPW, curOPW
 	return c
 }
 
@@ -1032,6 +1036,7 @@ func main() {
 	}
 	treeMatrix(r, e, opsList)
 	versionMatrix(r, e, opsList)
+	cryptoMatrix(r, e, opsList)
 
 	files := corpusFiles()
 	budget := r.Pick(3<<20, 120<<20)
